@@ -316,8 +316,6 @@ Proof.
 Qed.
 
 (** arithmetic progressions of pixel indices are closed under positional slicing *)
-Definition ap (p q m : Z) : list Z := map (fun k => p + q * k) (iota m).
-Definition is_ap (idx : list Z) : Prop := exists p q m, 0 <= m /\ idx = ap p q m.
 
 Lemma is_ap_iota n : 0 <= n -> is_ap (iota n).
 Proof.
@@ -987,13 +985,6 @@ End Recover.
 Lemma crs_dims_cases c : crs_dims c = ("y", "x") \/ crs_dims c = ("latitude", "longitude").
 Proof. destruct c as [[i []]|]; simpl; auto. Qed.
 
-Definition name_ok (name : option string) (yd xd : string) : Prop :=
-  match name with
-  | Some n => n <> yd /\ n <> xd /\ n <> "time" /\ n <> "band"
-  | None => True
-  end.
-Definition clean_attrs (a : attrs) : Prop :=
-  lookup "grid_mapping" a = None /\ lookup "crs" a = None /\ lookup "crs_wkt" a = None.
 
 Lemma aset_fresh {V} k (v : V) l : lookup k l = None -> aset k v l = l ++ [(k, v)].
 Proof.
@@ -1114,7 +1105,6 @@ Definition crs_coord_of (name : option string) (c : option crs) (gcps : option (
   | _, _ => None
   end.
 
-Definition cattrs_of (c : option crs) : attrs := match c with Some c => [("crs", VCrs c)] | None => [] end.
 
 Lemma wrap_xr_st tol g nt nb nd name user :
   is_affine_st tol (g_aff g) = true ->
@@ -1593,8 +1583,6 @@ Proof.
 Qed.
 
 (* ================================================================== recovery from any object carrying fresh GeoBox coordinates *)
-Definition st_attrs (r : Q) (c : option crs) : attrs :=
-  [("units", VOther); ("resolution", VNum r)] ++ cattrs_of c.
 
 Lemma georef_roundtrip_st tol t crs name yd xd Py x ny nx :
   georef_w yd xd (label (ff t) (fe t)) (label (fc t) (fa t)) (st_attrs (fe t) crs) (st_attrs (fa t) crs)
@@ -1693,12 +1681,7 @@ Proof.
 Qed.
 
 (* ================================================================== reprojection output assembly: DataArray *)
-Definition guess_names : list string := ["y"; "x"; "latitude"; "longitude"; "lat"; "lon"].
 
-(** names of the non-spatial dimensions of the source: not one of the names the
-    recovery guesses spatial dimensions by, and different from the spatial pair *)
-Definition other_dims_ok (l : list (string * Z)) (syd sxd : string) : Prop :=
-  forall dn, In dn l -> ~ In (fst dn) guess_names /\ fst dn <> syd /\ fst dn <> sxd.
 
 Lemma filter_aset_nil {V} (p : V -> bool) k v (l : list (string * V)) :
   filter (fun nc => p (snd nc)) l = [] ->
@@ -1798,14 +1781,6 @@ Proof.
   subst dy dx. destruct (crs_dims_cases c) as [E|E]; rewrite E; reflexivity.
 Qed.
 
-Definition keep_pred (syd sxd : string) (c : coord) : bool :=
-  negb (is_spatial_ref c) && disjointb [syd; sxd] (co_dims c).
-
-Definition out_attrs (itol : Q) (a : attrs) (dst_nodata : option Q) : attrs :=
-  match (match dst_nodata with Some v => Some v | None => nodata_of a end) with
-  | None => adel "_FillValue" (adel "nodata" (prune_spatial a))
-  | Some v => aset "nodata" (VNum (maybe_int v itol)) (prune_spatial a)
-  end.
 
 (** attribute pruning / overwrite logic of the output *)
 Lemma out_attrs_spatial itol a nd k : In k SPATIAL_ATTRIBUTES -> lookup k (out_attrs itol a nd) = None.
@@ -2174,20 +2149,8 @@ Section ReprojectDs.
   Hypothesis Hrun : reproject_ds repaired tol itol src dst nd = Ok out.
   Hypothesis Hnodup : NoDup (map fst (x_vars src)).
 
-  (** a geo-registered data variable of the source *)
-  Definition geo_var (nv : string * xvar) (syd sxd : string) (pre post : list (string * Z)) : Prop :=
-    (exists dv st sb n1 n2,
-        ds_getitem src (fst nv) = Some dv /\ locate_geo_info repaired tol dv = Ok st /\
-        gs_box st = Some sb /\ box_crs sb <> None /\ gs_sdims st = Some (syd, sxd) /\
-        x_dims dv = pre ++ [(syd, n1); (sxd, n2)] ++ post) /\
-    syd <> sxd /\ other_dims_ok (pre ++ post) syd sxd.
-
-  (** a variable passed through without a geobox that brings no coordinate or
-      dimension named like the destination's *)
-  Definition plain_var (nv : string * xvar) : Prop :=
-    exists o, reproject_ds_var repaired tol itol src dst nd nv = Ok (fst nv, o) /\
-              lookup dy (x_coords o) = None /\ lookup dx (x_coords o) = None /\ lookup sr (x_coords o) = None /\
-              lookup dy (x_dims o) = None /\ lookup dx (x_dims o) = None.
+  Local Notation geo_var := (XrCoords.geo_var tol src).
+  Local Notation plain_var := (XrCoords.plain_var tol itol src dst nd).
 
   Hypothesis Hall : forall nv, In nv (x_vars src) ->
                                (exists syd sxd pre post, geo_var nv syd sxd pre post) \/ plain_var nv.
